@@ -24,6 +24,7 @@ verus! {
 pub struct VfMutators { inner: usize }
 #[verifier::external_body]
 pub struct VfSnapshot { inner: usize }
+impl VfSnapshot { pub uninterp spec fn output_len(&self) -> nat; }
 pub struct VfError { pub code: u8 }
 } // verus!
 
